@@ -348,7 +348,8 @@ def immMatch (g : Given) (ty : String) (t : ImmTy) (v : Int) (d : Nat) : Option 
   match asmImm ctx text with
   | none => some "bad-imm-text"
   | some modelled =>
-    if d != immWanted ctx v then some s!"bad-imm want {immWanted ctx v} got {d} fits={decide (ImmFits ctx v)}"
+    if !decide (ImmRepresentable ctx v) then s!"bad-imm-truncated {v} is not a {ctx.width}-bit constant (assembled as {d})"
+    else if d != immWanted ctx v then some s!"bad-imm want {immWanted ctx v} got {d} fits={decide (ImmFits ctx v)}"
     else if modelled != d then some s!"bad-asm-model modelled {modelled} got {d}"
     else none
 
